@@ -425,7 +425,7 @@ func seqProfile(prop string, rng *simrt.Rng, tier string) (*Profile, map[string]
 		k["nshard"] = 257
 		k["readback"] = 1
 		p.BigFileBlocks = 600
-		k["nospace"] = 1 // the disks are small on purpose: running out of space is legitimate here
+		k["nospace"] = 1                     // the disks are small on purpose: running out of space is legitimate here
 		disk = uint64(1700 + rng.Intn(1500)) // small, so that blocks are recycled quickly
 	case "C04":
 		p.MinOps, p.MaxOps = 10, 50
@@ -751,21 +751,21 @@ func (g *seqGen) emitDeleteAll() {
 // ---- execution ----
 
 type seqRun struct {
-	spec     *Spec
-	res      *Result
-	d        *simdisk.Disk
-	rig      *Rig
-	m        *Model
-	tbl      map[int]string
-	states   []*Model // states[j]: reference state after the first j operations
-	stable   []bool   // stable[j]: operation j was acknowledged with stable semantics
-	viol     *Violation
-	verfs    []string
-	pending  bool // unstable data not yet known to be durable
-	info0    *fsckInfo
-	crashed  bool // this history contains a crash (half-freed inodes are then legitimate)
-	shrinkOn bool
-	nameMax  uint64
+	spec       *Spec
+	res        *Result
+	d          *simdisk.Disk
+	rig        *Rig
+	m          *Model
+	tbl        map[int]string
+	states     []*Model // states[j]: reference state after the first j operations
+	stable     []bool   // stable[j]: operation j was acknowledged with stable semantics
+	viol       *Violation
+	verfs      []string
+	pending    bool // unstable data not yet known to be durable
+	info0      *fsckInfo
+	crashed    bool // this history contains a crash (half-freed inodes are then legitimate)
+	shrinkOn   bool
+	nameMax    uint64
 	base       *simdisk.Image
 	traceStart int
 }
